@@ -20,8 +20,13 @@ from vlib.common import VERIF, LEAN, Ctx, Driver, Result, jdump, run_cmd, short_
 
 
 def load_props():
-    with open(os.path.join(LEAN, "props.json")) as f:
-        return json.load(f)
+    out = {}
+    d = os.path.join(VERIF, "props")
+    for fn in sorted(os.listdir(d)):
+        if fn.endswith(".json"):
+            with open(os.path.join(d, fn)) as f:
+                out[fn[:-5]] = json.load(f)
+    return out
 
 
 def load_known():
@@ -123,7 +128,7 @@ def main():
     if args.replay:
         with open(args.replay if os.path.isabs(args.replay) else os.path.join(VERIF, args.replay)) as f:
             rp = json.load(f)
-        drv = Driver()
+        drv = Driver(spec.get("driver", "driver_" + prop.lower()))
         ctx = Ctx(prop, tier, seed, drv if drv.available else None, mode="replay")
         if rp.get("kind") != "counterexample":
             print("replay file names unchecked obligations, not an input: %s" % rp.get("broken"))
@@ -150,7 +155,7 @@ def main():
     audit_detail = {}
     driver_ok = True
     if not args.no_build:
-        rc, out, dt = lake_build(["driver"], timeout=1800)
+        rc, out, dt = lake_build([spec.get("driver", "driver_" + prop.lower())], timeout=1800)
         build_log += out[-3000:]
         if rc != 0:
             driver_ok = False
@@ -189,7 +194,7 @@ def main():
             broken.append("leanchecker rejected: " + tail[-300:])
 
     # ---------------- 2. correspondence + oracles ---------------------------------------
-    drv = Driver() if driver_ok else None
+    drv = Driver(spec.get("driver", "driver_" + prop.lower())) if driver_ok else None
     if drv is not None and not drv.available:
         drv = None
         broken.append("driver binary missing")
